@@ -177,7 +177,7 @@ theorem keys_filterMap_eq {α} (l : List Name) (F : Name → Option (Name × α)
       rw [hF a x h]
       congr 1
 
-theorem wrapper_wellDefaulted (s : NodeSpec) (I : GraphD) (hb : I.spec.bound = []) (hwd : WellDefaulted I)
+theorem wrapper_wellDefaulted (s : NodeSpec) (I : GraphD) (hmo : s.mapOver = []) (hb : I.spec.bound = []) (hwd : WellDefaulted I)
     (hcd : ConsistentDefaults I) :
     (elabGraphNode s I).hasDefault = AL.keys (elabGraphNode s I).sigDefaults := by
   have hF : ∀ q x, sigF s I q = some x → x.1 = renameOf s.inRen q := by
@@ -192,14 +192,16 @@ theorem wrapper_wellDefaulted (s : NodeSpec) (I : GraphD) (hb : I.spec.bound = [
         rfl
   rw [elab_sigDefaults, keys_filterMap_eq _ _ _ hF]
   have hdef : (elabGraphNode s I).hasDefault = (I.spec.all.filter fun p =>
-      AL.has I.spec.bound p || (I.nodes.filter fun n => n.inputs.contains p).any fun n => n.hasDefault.contains p).map
+      AL.has I.spec.bound p || (!s.mapOver.contains (renameOf s.inRen p) &&
+        (I.nodes.filter fun n => n.inputs.contains p).any fun n => n.hasDefault.contains p)).map
         (renameOf s.inRen) := rfl
   rw [hdef]
   congr 1
   apply filter_congr_mem
   intro p _
   have hbn : AL.has I.spec.bound p = false := by rw [hb]; rfl
-  rw [hbn, Bool.false_or]
+  have hmp : s.mapOver.contains (renameOf s.inRen p) = false := by rw [hmo]; rfl
+  rw [hbn, Bool.false_or, hmp, Bool.not_false, Bool.true_and]
   -- users of `p`
   have hus : ∀ u ∈ I.nodes.filter fun n => n.inputs.contains p, u ∈ I.nodes ∧ p ∈ u.inputs := by
     intro u hu; rw [List.mem_filter] at hu; exact ⟨hu.1, by simpa using hu.2⟩
@@ -276,7 +278,7 @@ theorem outer_wfi {levelG : Name → Nat} (L : Layout s I O G pre post) (hW : WF
     · exact hW.nw n h
   · intro n hn
     rcases hleaf n hn with h | h
-    · subst h; exact wrapper_wellDefaulted s I L.ib hWI.wd hcd
+    · subst h; exact wrapper_wellDefaulted s I L.plain.mapOver L.ib hWI.wd hcd
     · exact hW.wd n h
   · -- names
     have hG := hW.up.names_nodup
